@@ -4,13 +4,77 @@ open Lean
 namespace PewDriver.C05
 open PewDriver Pew.Imzml
 
-def parseSpectrum (j : Json) : R Spectrum := do
-  let x ← getNat j "x"
-  let y ← getNat j "y"
+/-! The harness sends the bytes of the `.ibd` file it wrote (hex) and, per `<spectrum>`, what it wrote
+into the imzML: position, TIC text value (as an exact rational) and offset / encoded length of the
+two arrays.  Everything else (reading and decoding the arrays, the dict, the images) is the model. -/
+
+def hexVal (c : Char) : R Nat :=
+  if '0' ≤ c ∧ c ≤ '9' then pure (c.toNat - '0'.toNat)
+  else if 'a' ≤ c ∧ c ≤ 'f' then pure (c.toNat - 'a'.toNat + 10)
+  else throw s!"bad hex digit {c}"
+
+def hexBytes : List Char → R (List UInt8)
+  | [] => pure []
+  | [_] => throw "odd number of hex digits"
+  | a :: b :: r => do
+    let x ← hexVal a
+    let y ← hexVal b
+    let rest ← hexBytes r
+    pure (UInt8.ofNat (16 * x + y) :: rest)
+
+def parseDType (s : String) : R DType :=
+  match s with
+  | "u1" => pure .u8
+  | "u2" => pure .u16
+  | "u4" => pure .u32
+  | "u8" => pure .u64
+  | "f4" => pure .f32
+  | "f8" => pure .f64
+  | _ => throw s!"bad dtype {s}"
+
+def parseOrder (s : String) : R ByteOrder :=
+  match s with
+  | "little" => pure .little
+  | "big" => pure .big
+  | _ => throw s!"bad byte order {s}"
+
+def offLen (j : Json) : R (Nat × Nat) := do
+  match (← asList asNat j) with
+  | [a, b] => pure (a, b)
+  | _ => throw "array reference must be [offset, length]"
+
+/-- one `<spectrum>`: the arrays are read from the bytes by the model; a read that raises or yields a
+non-finite value is an error of the harness (the generator never writes one) -/
+def parseSpectrum (ibd : List UInt8) (mzdt itdt : DType) (j : Json) : R (Spectrum × List Nat × List Nat) := do
+  let x ← getInt j "x"
+  let y ← getInt j "y"
   let tic ← fld j "tic" >>= asOpt asRat
-  let mz ← getList asRat j "mz"
-  let it ← getList asRat j "it"
-  pure { x := x, y := y, tic := tic, mz := mz, it := it }
+  let (mo, ml) ← fld j "mz" >>= offLen
+  let (io, il) ← fld j "it" >>= offLen
+  match getBinaryData .little ibd mo ml mzdt, getBinaryData .little ibd io il itdt with
+  | some mb, some ib =>
+    match mb.mapM (valueOf mzdt), ib.mapM (valueOf itdt) with
+    | some mz, some it => pure ({ x := x, y := y, tic := tic, mz := mz, it := it }, mb, ib)
+    | _, _ => throw "non-finite value in a generated array"
+  | _, _ => throw "generated array does not fit the file"
+
+structure File where
+  size : Option (Int × Int)
+  specs : List Spectrum
+  bits : List (List Nat × List Nat)
+
+def parseFile (req : Json) : R File := do
+  let sizeJ ← fld req "size"
+  let size ← asOpt (fun j => do
+    match (← asList asInt j) with
+    | [a, b] => pure (a, b)
+    | _ => throw "size must be [X, Y]") sizeJ
+  let hex ← getStr req "ibd"
+  let ibd ← hexBytes hex.toList
+  let mzdt ← getStr req "mzdt" >>= parseDType
+  let itdt ← getStr req "itdt" >>= parseDType
+  let sp ← getList (parseSpectrum ibd mzdt itdt) req "spectra"
+  pure { size := size, specs := sp.map (·.1), bits := sp.map (·.2) }
 
 def parseWidth (j : Json) : R Width := do
   let k ← getStr j "kind"
@@ -25,6 +89,12 @@ def jTable {β} (f : β → Json) (t : List (List (Option β))) : Json :=
 
 def jVec : List Rat → Json := jList jRat
 
+/-- the result of an image method: `null` when it raises, else shape `(Y, X)` and the pixels -/
+def jImage {β} (f : β → Json) (r : Option ((Nat × Nat) × Canvas β)) : Json :=
+  match r with
+  | none => .null
+  | some (shape, img) => jObj [("shape", jList jNat [shape.1, shape.2]), ("table", jTable f (tabulate shape img))]
+
 /-- specification of the mass range: it must bound every recorded m/z; reported as the extreme
 recorded values (over ALL elements, not only first/last) -/
 def allMz (specs : List Spectrum) : List Rat := specs.flatMap (·.mz)
@@ -37,11 +107,20 @@ def maxR : List Rat → Option Rat
   | [] => none
   | x :: xs => some (xs.foldl (fun a b => if a < b then b else a) x)
 
-/-- hypotheses of the theorems, decided: strictly increasing non-empty axes, equal lengths,
-1-based positions inside the image -/
-def hyp (size : Nat × Nat) (specs : List Spectrum) : Bool :=
-  specs.all (fun s => incrB s.mz && s.mz.length == s.it.length && !s.mz.isEmpty
-    && decide (1 ≤ s.x) && decide (1 ≤ s.y) && decide (s.x ≤ size.1) && decide (s.y ≤ size.2))
+/-- the shape the property speaks of: the stated size, else the largest recorded position -/
+def specShape (f : File) : Option (Nat × Nat) := (imageSize f.size f.specs).bind shapeOf
+
+/-- hypotheses of the theorems, decided: every position recorded once, 1-based and inside the image;
+strictly increasing non-empty axes, equal lengths -/
+def hyp (f : File) : Bool :=
+  match specShape f with
+  | none => false
+  | some shape =>
+    inDomainB shape f.specs && distinctB f.specs &&
+    f.specs.all (fun s => incrB s.mz && s.mz.length == s.it.length && !s.mz.isEmpty)
+
+def specTable {β} (f : File) (g : Spectrum → β) : Option (List (List (Option β))) :=
+  (specShape f).map (fun shape => tabulate shape (fun r c => (specAt f.specs r c).map g))
 
 /-- the returned bin edges are acceptable for the specification: strictly increasing by exactly `w`,
 starting at or below the lowest and ending (with the last bin `[b, b + w)`) above the highest m/z -/
@@ -56,57 +135,68 @@ def binsCover (bins : List Rat) (w : Rat) (specs : List Spectrum) : Bool :=
   | some b0, some bl, some lo, some hi => decide (b0 ≤ lo) && decide (hi < bl + w)
   | _, _, _, _ => false
 
+/-- pixels that two or more dict values are written to (positions 0 and X, …): which value stays depends
+on the order of the loop, which the property does not fix; the harness compares only their NaN-ness -/
+def aliased (size : Option (Int × Int)) (d : List Spectrum) : Option (List (List (Option Bool))) :=
+  ((imageSize size d).bind shapeOf).map (fun shape =>
+    tabulate shape (fun r c =>
+      some (decide (2 ≤ (d.filter (fun s => pyIndex shape.1 (s.y - 1) == some r && pyIndex shape.2 (s.x - 1) == some c)).length))))
+
+def jSpecRef (s : Spectrum) : Json :=
+  jObj [("x", jInt s.x), ("y", jInt s.y), ("mz", jVec s.mz), ("it", jVec s.it)]
+
 def handle (op : String) (req : Json) : R Json := do
   match op with
   | "c05.image" =>
-    let sizeJ ← fld req "size"
-    let size ← asOpt (fun j => do
-      match (← asList asNat j) with
-      | [a, b] => pure (a, b)
-      | _ => throw "size must be [X, Y]") sizeJ
-    let specs ← getList parseSpectrum req "spectra"
+    let f ← parseFile req
     let masses ← getList asRat req "masses"
     let width ← fld req "width" >>= parseWidth
-    let sz := imageSize size specs
-    let ext := tabulate sz (extractImage specs masses width)
-    let extS := tabulate sz (specImage (fun s => specSpectrum s.mz s.it (windows masses width)) specs)
-    let tic := tabulate sz (ticImage specs)
-    let ticS := tabulate sz (specImage (fun s => match s.tic with | some t => t | none => s.it.sum) specs)
-    let mr := massRange specs
-    let edges := flatten (windows masses width)
-    pure (jObj [("size", jList jNat [sz.1, sz.2]),
-                ("extract_model", jTable jVec ext), ("extract_spec", jTable jVec extS),
-                ("tic_model", jTable jRat tic), ("tic_spec", jTable jRat ticS),
-                ("range_model", jList (jOpt jRat) [mr.1, mr.2]),
-                ("range_spec", jList (jOpt jRat) [minR (allMz specs), maxR (allMz specs)]),
-                ("edges", jList jRat edges),
-                ("hyp", jBool (hyp sz specs))])
+    let d := spectraDict f.specs
+    let wins := windows masses width
+    let mr := massRange d
+    pure (jObj [("arrays", jList (fun (b : List Nat × List Nat) => jObj [("mz", jList jNat b.1), ("it", jList jNat b.2)]) f.bits),
+                ("values", jList jSpecRef f.specs),
+                ("dict", jList jSpecRef d),
+                ("extract_model", jImage jVec (extractImage f.size d masses width)),
+                ("extract_spec", jOpt (jTable jVec) (specTable f (fun s => specSpectrum s.mz s.it wins))),
+                ("tic_model", jImage jRat (ticImage f.size d)),
+                ("tic_spec", jOpt (jTable jRat) (specTable f (fun s => match s.tic with | some t => t | none => s.it.sum))),
+                ("range_model", jOpt (fun (p : Option Rat × Option Rat) => jList (jOpt jRat) [p.1, p.2]) mr),
+                ("range_spec", jList (jOpt jRat) [minR (allMz f.specs), maxR (allMz f.specs)]),
+                ("aliased", jOpt (jTable jBool) (aliased f.size d)),
+                ("edges", jList jRat (flatten wins)),
+                ("hyp", jBool (hyp f))])
   | "c05.bins" =>
-    let sizeJ ← fld req "size"
-    let size ← asOpt (fun j => do
-      match (← asList asNat j) with
-      | [a, b] => pure (a, b)
-      | _ => throw "size must be [X, Y]") sizeJ
-    let specs ← getList parseSpectrum req "spectra"
+    let f ← parseFile req
     let w ← getRat req "w"
     -- the edges returned by the implementation (null when it raised): the specification is
     -- evaluated on them; the mechanism model computes its own
     let implBins ← fld req "impl_bins" >>= asOpt (asList asRat)
-    let sz := imageSize size specs
-    let mr := massRange specs
-    let mbins := match mr with
-      | (some lo, some hi) => arange lo (hi + w) w
-      | _ => []
-    let sbins := implBins.getD mbins
-    let model := tabulate sz (binImage specs mbins)
-    let spec := tabulate sz (specImage (fun s => binSpec s.mz s.it sbins w) specs)
-    let dns := tabulate sz (specImage (fun s => dense s.mz sbins) specs)
-    let tot := tabulate sz (specImage (fun s => s.it.sum) specs)
-    pure (jObj [("size", jList jNat [sz.1, sz.2]),
-                ("bins_model", jVec mbins), ("model", jTable jVec model),
-                ("spec", jTable jVec spec), ("dense", jTable jBool dns), ("total", jTable jRat tot),
-                ("cover", jBool (binsCover sbins w specs)),
-                ("hyp", jBool (hyp sz specs))])
+    let d := spectraDict f.specs
+    let mbins := binEdges d w
+    let sbins := implBins.getD (mbins.getD [])
+    let model := match binImage f.size d w with
+      | none => Json.null
+      | some (bins, shape, img) =>
+        jObj [("bins", jVec bins), ("shape", jList jNat [shape.1, shape.2]), ("table", jTable jVec (tabulate shape img))]
+    pure (jObj [("model", model),
+                ("spec", jOpt (jTable jVec) (specTable f (fun s => binSpec s.mz s.it sbins w))),
+                ("dense", jOpt (jTable jBool) (specTable f (fun s => dense s.mz sbins))),
+                ("cover", jBool (binsCover sbins w f.specs)),
+                ("hyp", jBool (hyp f))])
+  | "c05.read" =>
+    let hex ← getStr req "ibd"
+    let ibd ← hexBytes hex.toList
+    let dt ← getStr req "dtype" >>= parseDType
+    let bo ← getStr req "order" >>= parseOrder
+    let off ← getNat req "off"
+    let len ← getNat req "len"
+    let bits := getBinaryData bo ibd off len dt
+    pure (jObj [("bits", jOpt (jList jNat) bits),
+                ("values", jOpt (jList (fun b => jOpt jRat (valueOf dt b))) bits),
+                ("pointwise", jOpt (jList jNat)
+                  (bits.map (fun a => (List.range a.length).map
+                    (fun i => bitsOf bo ((ibd.drop (off + i * dt.width)).take dt.width)))))])
   | _ => throw s!"unknown op {op}"
 
 end PewDriver.C05
